@@ -150,7 +150,12 @@ ASSUMPTIONS = (
 
 
 def obligations(tier):
-    return [
+    extra = []
+    if tier == "thorough":
+        extra = [Ob(name="E1-directory-rule-is-boundary-prefix", engine="xh", module="props.xhk", fn="c18_directory_rule_is_boundary_prefix",
+                    functions=["DirectoryMatcher.find_matching_rule/_check_path_match/_check_root_match"], deciding=False, timeout=240,
+                    bounds="CrossHair: two directory keys (len <= 3) and a path (len <= 5) symbolic strs over the alphabet ab/ (hunting: a timeout claims nothing)")]
+    return extra + [
         Ob(name="K2-verdicts-on-rule-sets", engine="pathex", harness=make_h(tier),
            functions=["FilePlacementLinter.__init__/_unwrap_config/lint_path", "PathResolver.get_relative_path/normalize_path_string",
                       "RuleChecker.check_all_rules/_check_directory_rules/_check_directory_deny_rules/_check_directory_allow_rules/_check_global_deny/_check_global_patterns",
